@@ -10,6 +10,9 @@ require (
 	pgregory.net/rapid v1.3.0
 )
 
-require golang.org/x/crypto v0.53.0 // indirect
+require (
+	golang.org/x/crypto v0.53.0 // indirect
+	golang.org/x/sys v0.46.0 // indirect
+)
 
 replace github.com/tink-crypto/tink-go/v2 => /repo
